@@ -237,7 +237,7 @@ func main() {
 	defer os.RemoveAll(work)
 	env := baseEnv()
 	ensureShim(env)
-	replayDir := filepath.Join(verifRoot, "replays", id)
+	replayDir := filepath.Join(envOr("VERIF_REPLAY_ROOT", filepath.Join(verifRoot, "replays")), id) // the override is for sensitivity trials against scratch worktrees only
 	os.MkdirAll(replayDir, 0o755)
 	env = append(env, "VERIF_REPLAY_DIR="+replayDir, "VERIF_TIER="+tier, "VERIF_SEED="+strconv.FormatInt(seed, 10), "VERIF_PROPERTY="+id)
 
@@ -706,6 +706,7 @@ func (m *merged) write(prop Prop, id, tier string, seed int64, wall float64, vio
 		"repo": repo,
 	}
 	b, _ := json.MarshalIndent(ev, "", " ")
-	os.MkdirAll(filepath.Join(verifRoot, "evidence"), 0o755)
-	os.WriteFile(filepath.Join(verifRoot, "evidence", id+".json"), b, 0o644)
+	evDir := envOr("VERIF_EVIDENCE_DIR", filepath.Join(verifRoot, "evidence")) // the override is for sensitivity trials against scratch worktrees only
+	os.MkdirAll(evDir, 0o755)
+	os.WriteFile(filepath.Join(evDir, id+".json"), b, 0o644)
 }
